@@ -63,6 +63,8 @@ def args_for(r, v, f_lf, f_crlf):
         args += ["--column"]
     if v == "ctx":
         args += ["-C1"]
+    if v == "ctxpass":
+        args += ["--passthru"]
     if v in ("crlf", "crlf_lf"):
         args += ["--crlf"]
     if v == "maxctx":
@@ -97,8 +99,9 @@ def judge_one(r, lines, v, rc, so, se):
             if sep == b"-" and t not in (orig, repl):
                 return "context line %d printed as %r" % (n, t)
         return None
-    if v == "ctx":
-        # selected (non-matching) lines must be printed unaltered; context lines may or may not be replaced
+    if v in ("ctx", "ctxpass"):
+        # -v: selected (non-matching) lines must be printed unaltered; a line that holds matches and is printed as context
+        # (-C1 / --passthru) is a printed line with matches: each match replaced
         bylno = {n: (sep, t) for n, sep, t in got}
         for k, (lr, content) in enumerate(zip(r["lines"], lines), 1):
             orig = rr.sym_bytes(content)
@@ -109,8 +112,10 @@ def judge_one(r, lines, v, rc, so, se):
                     return "line %d has no match but was not printed unaltered: %r" % (k, bylno.get(k))
             elif k in bylno:
                 sep, t = bylno[k]
-                if sep != b"-" or t not in (orig, rr.items_bytes(lr["r"])):
-                    return "context line %d printed as %r" % (k, t)
+                if sep != b"-" or t != rr.items_bytes(lr["r"]):
+                    return "context line %d (it holds matches) printed as %r, its replace-all is %r" % (k, t, rr.items_bytes(lr["r"]))
+            elif v == "ctxpass":
+                return "--passthru does not print line %d" % k
         return None
     exp = expected(r, lines, {"plain": "plain", "only": "only", "column": "column", "crlf": "plain", "crlf_lf": "plain"}[v])
     if v == "crlf":
@@ -126,7 +131,7 @@ def judge_one(r, lines, v, rc, so, se):
 def main(tier):
     chk = vlib.Check("C19", tier)
     chk.rule = ("each (pattern, options, template) scenario is evaluated on the whole catalogue of line contents (all contents of length <= 3 "
-                "(4 in the thorough tier) over {a,b,space,e-acute} plus special lines) and replayed as rg -r, -o -r, --column -r, --crlf -r and -v -C1 -r. "
+                "(4 in the thorough tier) over {a,b,space,e-acute} plus special lines) and replayed as rg -r, -o -r, --column -r, --crlf -r, -v -C1 -r and -v --passthru -r (a line that holds matches and is printed as context is replaced too). "
                 "Non-trivial: the template contains a group reference and some line has a match whose expansion differs from the match; "
                 "distinct by (pattern, options, template).")
     chk.assumptions = ["regex semantics as in specs/common/RegexSem.tla", "bounds: specs/regex/MCPrinter.tla"]
@@ -149,7 +154,7 @@ def main(tier):
                 if i % 4 == 0 and "13" not in json.dumps(r["u"]):     # a literal CR is rejected under --crlf
                     variants += ["crlf", "crlf_lf"]
             else:
-                variants += ["ctx"]
+                variants += ["ctx", "ctxpass"]
             if not r["o"]["inv"] and i % 2 == vlib.seed() % 2:
                 variants += ["maxctx"]        # -m1 -A2: lines that match inside the trailing context of the last counted match
             for v in variants:
